@@ -304,7 +304,8 @@ def sec_theory(rep):
     cases = (("FFNS", 3), ("FFNS", 4), ("FFN0", 5), ("FONLL-FFNS", 4), ("FONLL-FFN0", 3), ("ZM-VFNS", 3), ("ZM-VFNS", 4), ("bogus", 3))
     for i, (fns, nf_ff) in enumerate(cases):
         rep.cases += 1
-        th = H.base_theory(FNS=fns, NfFF=nf_ff, XIR=0.5, XIF=2.0, alphaqed=0.0078, kcThr=1.2 + 0.05 * i, kbThr=0.8 + 0.03 * i, ktThr=1.0 + 0.01 * i)
+        # every perturbative order the card can name is handed on unchanged (PTO 0..3 over the history)
+        th = H.base_theory(FNS=fns, NfFF=nf_ff, PTO=(1, 3, 0, 2, 3, 3, 1, 2)[i], XIR=0.5, XIF=2.0, alphaqed=0.0078, kcThr=1.2 + 0.05 * i, kbThr=0.8 + 0.03 * i, ktThr=1.0 + 0.01 * i)
         th["mc"] *= 1 + 0.02 * i
         th["mb"] *= 1 + 0.01 * i
         th["nfref"] = 5 if i % 2 == 0 else 4
